@@ -52,7 +52,7 @@ impl Prop for C08 {
         "C08"
     }
     fn cases(&self, ctx: &Ctx) -> u64 {
-        ctx.tier.pick(2000, 60_000)
+        ctx.tier.pick(12_000, 200_000)
     }
     fn rule(&self) -> &'static str {
         "all generators (well-formed, mutated, spliced, truncated, token soup, byte soup) x randomly sampled full configurations (incl. tab_width 0/255, continuation 0/255, tabs, crlf); oracle on the gaps between reference-scanner tokens of the output, outside verbatim regions/asm and multi-line token interiors: no blanks before a line break, <= 1 space and no tab between tokens, no two consecutive blank lines, no blank first line, indentation made of whole units (tabs only / multiple of tab_width); for well-formed inputs exactly one final line terminator. Non-trivial: output has >= 3 lines and differs from the input; distinct by input hash + configuration."
